@@ -316,7 +316,12 @@ Definition case_lines (u : string * ty) : list string :=
   (flat_map (fun iv : nat * val => let '(vi, v) := iv in (path_lines (fst u) n vi v ++ value_lines (fst u) n vs vi v)%list)
            (combine (seqn (List.length vs)) vs) ++
   match vs with
-  | v0 :: _ => hostile_lines (fst u) n (last vs v0)
+  | v0 :: _ =>
+    (hostile_lines (fst u) n (last vs v0) ++
+     (* non-finite floats are boundary scalars too: the most populated value with every float replaced by +Inf
+        (DeepEqual of an object with itself is then false - in every argument form) *)
+     (let vinf := inf_floats (last vs v0) in
+      if val_eqb vinf (last vs v0) then [] else value_lines (fst u) n vs 900 vinf))%list
   | [] => []
   end)%list.
 
